@@ -5,7 +5,7 @@
 import os, sys
 sys.path.insert(0, os.path.join(os.environ.get("AIOFTP_REPO", "/repo"), "src"))
 OBLIGATION = 'aioftp.server:Server.dispatcher/set-up::Server.dispatcher/set-up/exit:fresh-empty-worker-set'
-MODEL = {'cwd!110': 'Empty(Seq(String))', 'socket_timeout!34': '1/2', 'logged_present!13': False, 'idle_timeout!33': '1/2', 'restart_offset!10': 0, 'u_cur_home!109': 'Empty(Seq(String))', 'user_done!12': False, 'block_size!0': 1, 'logged_done!14': True}
+MODEL = {'restart_offset!10': 0, 'block_size!0': 1, 'socket_timeout!34': '1/2', 'idle_timeout!33': '1/2', 'u_cur_home!115': 'Empty(Seq(String))', 'user_done!12': False, 'cwd!116': 'Empty(Seq(String))', 'logged_present!13': False, 'logged_done!14': True}
 SOLVER_NOTE = ''
 
 print("obligation", OBLIGATION, "failed; no concrete failing input could be constructed automatically")
